@@ -394,7 +394,11 @@ void EntityManager::applyCommandPack(TemporalStorage& storage, size_t begin, siz
         supplied.set(source.first, true);
     }
 
-    Archetype& archetype = getArchetype(final_mask, shared);
+    // An existing entity whose component set did not change stays where it is. No lookup then: its archetype may
+    // predate a dependency declaration, and the closed set would name a different archetype (the values below must
+    // land in the archetype the entity is really in).
+    Archetype& archetype = (!create && initial_mask == final_mask) ? getArchetype(locations_[entity.id()].archetype)
+                                                                   : getArchetype(final_mask, shared);
     if (create) {
         archetype.insert(entity, supplied);
     }
